@@ -282,6 +282,9 @@ pub enum Misbehave {
     ByteWidth(usize),
     /// sample at interleaved index `i` of read `k` replaced by a value outside the width (`above`: 2^(bps-1), else -2^(bps-1)-1)
     OutOfRange { read: usize, index: usize, above: bool },
+    /// the source fills with packed bytes for reads < `read` and with integers from read `read` on; the
+    /// integer block of read `read` carries a sample just above the width
+    BytesThenBadInt { read: usize },
 }
 
 #[derive(Clone, Debug, Serialize, Deserialize)]
@@ -295,6 +298,9 @@ pub struct StreamCase17 {
     pub by_bytes: bool,
     pub mis: Misbehave,
     pub seed: u64,
+    /// the source reports its length through `len_hint`
+    #[serde(default)]
+    pub hint: bool,
 }
 
 pub struct GridSource {
@@ -310,9 +316,17 @@ pub struct GridSource {
     mis: Misbehave,
     pub delivered: Vec<i32>,
     scratch: Vec<u8>,
+    hint: bool,
 }
 
 impl Source for GridSource {
+    fn len_hint(&self) -> Option<usize> {
+        if self.hint {
+            Some(self.samples.len() / self.stride.max(1))
+        } else {
+            None
+        }
+    }
     fn channels(&self) -> usize {
         self.channels
     }
@@ -342,8 +356,17 @@ impl Source for GridSource {
                 blk[i] = if above { 1i32 << (b - 1) } else { (-(1i64 << (b - 1)) - 1) as i32 };
             }
         }
+        let mut by_bytes = self.by_bytes;
+        if let Misbehave::BytesThenBadInt { read } = self.mis {
+            by_bytes = k < read;
+            if k == read && !blk.is_empty() {
+                let b = self.bps.clamp(1, 31);
+                let i = blk.len() / 2;
+                blk[i] = 1i32 << (b - 1);
+            }
+        }
         self.pos += n * stride;
-        if self.by_bytes {
+        if by_bytes {
             let native = (self.bps.clamp(1, 32) + 7) / 8;
             let w = if let Misbehave::ByteWidth(w) = self.mis { w } else { native };
             self.scratch.clear();
@@ -385,6 +408,7 @@ pub fn check_stream(c: &StreamCase17) -> Outcome {
             Misbehave::OverFill(e) => e > 0 && c.len > c.block,
             Misbehave::ByteWidth(w) => c.by_bytes && w != (c.bps + 7) / 8 && c.len > 0,
             Misbehave::OutOfRange { read, .. } => read * c.block < c.len,
+            Misbehave::BytesThenBadInt { read } => read * c.block < c.len,
             Misbehave::None => false,
         }
     };
@@ -395,6 +419,7 @@ pub fn check_stream(c: &StreamCase17) -> Outcome {
         Misbehave::OverFill(_) => "over-fill",
         Misbehave::ByteWidth(_) => "byte-width",
         Misbehave::OutOfRange { .. } => "sample-outside-width",
+        Misbehave::BytesThenBadInt { .. } => "byte-fills-then-integer-fill-with-sample-outside-width",
     }));
     // the source interleaves with its declared channel count where that is feasible
     let stride = if (1..=64).contains(&c.channels) { c.channels } else { 1 };
@@ -406,7 +431,7 @@ pub fn check_stream(c: &StreamCase17) -> Outcome {
         out.viol("generator-unsound", "valid config rejected");
         return out;
     };
-    let src = GridSource { rate: c.rate, channels: c.channels, bps: c.bps, samples, stride, pos: 0, reads: 0, by_bytes: c.by_bytes, mis: c.mis, delivered: vec![], scratch: vec![] };
+    let src = GridSource { rate: c.rate, channels: c.channels, bps: c.bps, samples, stride, pos: 0, reads: 0, by_bytes: c.by_bytes, mis: c.mis, delivered: vec![], scratch: vec![], hint: c.hint };
     let block = c.block;
     let what = format!("encode_with_fixed_block_size(multithread={}, source rate={} channels={} bits={}, block_size={}, {} samples, {:?})", c.multithread, c.rate, c.channels, c.bps, c.block, c.len, c.mis);
     let r = with_deadline(60, move || {
@@ -481,6 +506,9 @@ pub struct FrameCase17 {
     /// Some(usize::MAX) = the buffer is never filled, Some(k) = a short (valid) block of k samples
     #[serde(default)]
     pub fill: Option<usize>,
+    /// history: the buffer first receives a valid block through `fill_le_bytes` (native width)
+    #[serde(default)]
+    pub prefill_bytes: bool,
 }
 
 pub fn check_frame(c: &FrameCase17) -> Outcome {
@@ -516,6 +544,19 @@ pub fn check_frame(c: &FrameCase17) -> Outcome {
             (false, 0) => (-(1i64 << (c.bps - 1)) - 1) as i32,
             (false, _) => i32::MIN,
         };
+    }
+    if c.prefill_bytes {
+        let nb = (c.bps + 7) / 8;
+        let good = rnd_samples(c.block * c.channels, c.bps, c.seed ^ 0x55);
+        let mut bytes = Vec::with_capacity(good.len() * nb);
+        for x in &good {
+            bytes.extend_from_slice(&x.to_le_bytes()[..nb]);
+        }
+        if fb.fill_le_bytes(&bytes, nb).is_err() {
+            out.viol("fill-rejects-valid", "fill_le_bytes of exactly the capacity failed");
+            return out;
+        }
+        out.class("history:byte-fill-before-the-judged-fill");
     }
     if c.fill != Some(usize::MAX) && fb.fill_interleaved(&v).is_err() {
         out.viol("fill-rejects-valid", "fill_interleaved of at most the capacity failed");
@@ -577,7 +618,7 @@ pub fn check(c: &Case17) -> Outcome {
 
 fn stream_grid(thorough: bool) -> Vec<Case17> {
     let mut v = vec![];
-    let base = StreamCase17 { rate: 44100, channels: 2, bps: 16, block: 64, len: 200, multithread: false, by_bytes: false, mis: Misbehave::None, seed: 7 };
+    let base = StreamCase17 { rate: 44100, channels: 2, bps: 16, block: 64, len: 200, multithread: false, by_bytes: false, mis: Misbehave::None, seed: 7, hint: false };
     for mt in [false, true] {
         for by_bytes in [false, true] {
             let b = StreamCase17 { multithread: mt, by_bytes, ..base.clone() };
@@ -592,8 +633,15 @@ fn stream_grid(thorough: bool) -> Vec<Case17> {
                 v.push(Case17::Stream(StreamCase17 { rate: x, ..b.clone() }));
             }
             for x in block_grid() {
-                v.push(Case17::Stream(StreamCase17 { block: x, len: 100, ..b.clone() }));
-                v.push(Case17::Stream(StreamCase17 { block: x, len: 0, ..b.clone() }));
+                for hint in [false, true] {
+                    v.push(Case17::Stream(StreamCase17 { block: x, len: 100, hint, ..b.clone() }));
+                    v.push(Case17::Stream(StreamCase17 { block: x, len: 0, hint, ..b.clone() }));
+                }
+            }
+            for read in 1..4usize {
+                for bps in [8usize, 12, 16, 24] {
+                    v.push(Case17::Stream(StreamCase17 { mis: Misbehave::BytesThenBadInt { read }, bps, len: 400, ..b.clone() }));
+                }
             }
             for e in [1usize, 2, 64, 1000] {
                 v.push(Case17::Stream(StreamCase17 { mis: Misbehave::OverFill(e), len: 3000, ..b.clone() }));
@@ -663,14 +711,14 @@ fn frame_grid() -> Vec<Case17> {
     let mut v = vec![];
     for n in frame_number_grid() {
         for (ch, bps) in [(1usize, 16usize), (2, 24), (8, 8)] {
-            v.push(Case17::Frame(FrameCase17 { channels: ch, bps, block: 64, frame_number: n, bad_sample: None, seed: 1, fill: None }));
+            v.push(Case17::Frame(FrameCase17 { channels: ch, bps, block: 64, frame_number: n, bad_sample: None, seed: 1, fill: None, prefill_bytes: false }));
         }
     }
     // delivered sample counts: empty fill, never filled, short valid blocks, full
     for (ch, bps) in [(1usize, 16usize), (2, 24), (8, 8)] {
         for fill in [Some(0usize), Some(usize::MAX), Some(1), Some(2), Some(15), Some(16), Some(63), None] {
             for block in [32usize, 64, 4096] {
-                v.push(Case17::Frame(FrameCase17 { channels: ch, bps, block, frame_number: 7, bad_sample: None, seed: 3, fill }));
+                v.push(Case17::Frame(FrameCase17 { channels: ch, bps, block, frame_number: 7, bad_sample: None, seed: 3, fill, prefill_bytes: false }));
             }
         }
     }
@@ -679,7 +727,8 @@ fn frame_grid() -> Vec<Case17> {
             for i in [0usize, 1, 63, 64 * ch - 1, 17] {
                 for above in [false, true] {
                     for far in [0u8, 1] {
-                        v.push(Case17::Frame(FrameCase17 { channels: ch, bps, block: 64, frame_number: 3, bad_sample: Some((i, above, far)), seed: 2, fill: None }));
+                        v.push(Case17::Frame(FrameCase17 { channels: ch, bps, block: 64, frame_number: 3, bad_sample: Some((i, above, far)), seed: 2, fill: None, prefill_bytes: false }));
+                        v.push(Case17::Frame(FrameCase17 { channels: ch, bps, block: 64, frame_number: 3, bad_sample: Some((i, above, far)), seed: 2, fill: None, prefill_bytes: true }));
                     }
                 }
             }
@@ -733,7 +782,7 @@ pub fn run(ctx: &Ctx) {
     }, check);
     ctx.search("gen-frame", 16, per * 2, &|| {
         (1usize..=8, proptest::sample::select(vec![8usize, 12, 16, 20, 24]), 32usize..=500, prop_oneof![3 => 0usize..(1 << 31), 1 => (1usize << 31)..usize::MAX], proptest::option::weighted(0.6, (any::<usize>(), any::<bool>(), 0u8..2)), any::<u64>())
-            .prop_map(|(channels, bps, block, frame_number, bad_sample, seed)| Case17::Frame(FrameCase17 { channels, bps, block, frame_number, bad_sample, seed, fill: None }))
+            .prop_map(|(channels, bps, block, frame_number, bad_sample, seed)| Case17::Frame(FrameCase17 { channels, bps, block, frame_number, bad_sample, seed, fill: None, prefill_bytes: seed % 3 == 0 }))
     }, check);
     ctx.search("gen-stream", 8, per, &|| {
         let mis = prop_oneof![
@@ -741,9 +790,10 @@ pub fn run(ctx: &Ctx) {
             2 => (1usize..=300).prop_map(Misbehave::OverFill),
             2 => (0usize..=5).prop_map(Misbehave::ByteWidth),
             3 => (0usize..6, any::<usize>(), any::<bool>()).prop_map(|(read, index, above)| Misbehave::OutOfRange { read, index, above }),
+            2 => (1usize..6).prop_map(|read| Misbehave::BytesThenBadInt { read }),
         ];
         (1usize..=8, proptest::sample::select(vec![8usize, 12, 16, 20, 24]), 32usize..=200, 0usize..=900, any::<bool>(), any::<bool>(), mis, any::<u64>())
-            .prop_map(|(channels, bps, block, len, multithread, by_bytes, mis, seed)| Case17::Stream(StreamCase17 { rate: 48000, channels, bps, block, len, multithread, by_bytes, mis, seed }))
+            .prop_map(|(channels, bps, block, len, multithread, by_bytes, mis, seed)| Case17::Stream(StreamCase17 { rate: 48000, channels, bps, block, len, multithread, by_bytes, mis, seed, hint: seed % 2 == 0 }))
     }, check);
 }
 
